@@ -26,7 +26,7 @@ import sys
 import logging
 import asyncio
 import argparse
-from urllib.parse import urljoin
+from urllib.parse import urljoin, urlsplit
 import itertools
 
 import aiocoap
@@ -133,6 +133,7 @@ class CommonRD:
             registration_parameters,
             proxy_host,
             setproxyremote_cb,
+            links=None,
         ):
             # note that this can not modify d and ep any more, since they are
             # already part of the key and possibly the path
@@ -149,16 +150,20 @@ class CommonRD:
             self.proxy_host = proxy_host
             self._setproxyremote_cb = setproxyremote_cb
 
-            self.update_params(network_remote, registration_parameters, is_initial=True)
+            self.update_params(
+                network_remote, registration_parameters, is_initial=True, links=links
+            )
 
         def update_params(
-            self, network_remote, registration_parameters, is_initial=False
+            self, network_remote, registration_parameters, is_initial=False, links=None
         ):
             """Set the registration_parameters from the parsed query arguments,
             update any effects of them, and trigger any observation updates if
             required (the typical ones don't because their
             registration_parameters are {} and all it does is restart the
-            lifetime counter)"""
+            lifetime counter)
+
+            If links are given, they replace the links of the registration."""
 
             if any(k in ("ep", "d") for k in registration_parameters.keys()):
                 # The ep and d of initial registrations are already popped out
@@ -205,6 +210,24 @@ class CommonRD:
                 set_base = pop_single_arg(registration_parameters, "base")
                 if set_base is None:
                     raise error.BadRequest("base must have a value")
+                try:
+                    urlsplit(set_base)
+                except ValueError:
+                    raise error.BadRequest("base is not a URI")
+
+            # Lookups resolve the links of all registrations against their
+            # bases: a registration whose links can not be resolved would make
+            # them fail for everyone
+            if set_base is not None:
+                new_base = set_base
+            elif is_initial or not self.base_is_explicit:
+                new_base = network_base
+            else:
+                new_base = self.base
+            try:
+                self._based_links(new_base, self.links if links is None else links)
+            except ValueError:
+                raise error.BadRequest("Links can not be resolved against the base")
 
             if set_lt is not None and self.lt != set_lt:
                 actual_change = True
@@ -226,6 +249,9 @@ class CommonRD:
             ):
                 self.registration_parameters.update(registration_parameters)
                 actual_change = True
+
+            if links is not None:
+                self.links = links
 
             if is_initial:
                 self._set_timeout()
@@ -273,16 +299,26 @@ class CommonRD:
             """Produce a LinkFormat object that represents all statements in
             the registration, resolved to the registration's base (and thus
             suitable for comparing anchors)."""
+            return self._based_links(self.base, self.links)
+
+        @staticmethod
+        def _based_links(base, links):
+            """Resolve links against a base as described in get_based_links;
+            raises ValueError if that is not possible."""
             result = []
-            for link in self.links.links:
-                href = urljoin(self.base, link.href)
+            for link in links.links:
+                href = urljoin(base, link.href)
+                # This is the value the resource lookup compares anchors to; it
+                # is calculated in any case so that unresolvable links are
+                # found when they are registered
+                default_anchor = urljoin(href, "/")
                 if "anchor" in link:
-                    absanchor = urljoin(self.base, link.anchor)
+                    absanchor = urljoin(base, link.anchor)
                     data = [(k, v) for (k, v) in link.attr_pairs if k != "anchor"] + [
                         ["anchor", absanchor]
                     ]
                 else:
-                    data = link.attr_pairs + [["anchor", urljoin(href, "/")]]
+                    data = link.attr_pairs + [["anchor", default_anchor]]
                 result.append(Link(href, data))
             return LinkFormat(result)
 
@@ -311,7 +347,7 @@ class CommonRD:
             if path not in self._by_path:
                 return path
 
-    def initialize_endpoint(self, network_remote, registration_parameters):
+    def initialize_endpoint(self, network_remote, registration_parameters, links=None):
         # copying around for later use in static, but not checking again
         # because reading them from the original will already have screamed by
         # the time this is used
@@ -400,6 +436,7 @@ class CommonRD:
             registration_parameters,
             proxy_host,
             setproxyremote,
+            links,
         )
 
         # The old registration is only removed once the new one was accepted:
@@ -467,9 +504,8 @@ class DirectoryResource(ThingWithCommonRD, Resource):
             )
 
         regresource = self.common_rd.initialize_endpoint(
-            request.remote, registration_parameters
+            request.remote, registration_parameters, links
         )
-        regresource.links = links
 
         return aiocoap.Message(code=aiocoap.CREATED, location_path=regresource.path)
 
@@ -488,9 +524,9 @@ class RegistrationResource(Resource):
     async def render_get(self, request):
         return link_format_to_message(request, self.reg.links)
 
-    def _update_params(self, msg):
+    def _update_params(self, msg, links=None):
         query = query_split(msg)
-        self.reg.update_params(msg.remote, query)
+        self.reg.update_params(msg.remote, query, links=links)
 
     async def render_post(self, request):
         if request.opt.content_format is not None or request.payload:
@@ -504,8 +540,7 @@ class RegistrationResource(Resource):
         # this is not mentioned in the current spec, but seems to make sense
         links = link_format_from_message(request)
 
-        self._update_params(request)
-        self.reg.links = links
+        self._update_params(request, links)
 
         return aiocoap.Message(code=aiocoap.CHANGED)
 
@@ -740,10 +775,9 @@ class SimpleRegistration(ThingWithCommonRD, Resource):
             self.common_rd.log.warning(
                 "Warning from registration: %s", self.registration_warning
             )
-        registration = self.common_rd.initialize_endpoint(
-            network_remote, registration_parameters
+        self.common_rd.initialize_endpoint(
+            network_remote, registration_parameters, links
         )
-        registration.links = links
 
 
 class SimpleRegistrationWKC(WKCResource, SimpleRegistration):
